@@ -138,6 +138,16 @@ package age
 
 //@ pred scryptKeyOf(pw, salt16, logN) := scryptkdf(pw, cat(SCRYPTLABEL, salt16), pow2(logN), 8, 1, 32)
 
+//@ func (*ScryptRecipient).SetWorkFactor(r, logN)
+//@   requires r != nil && 1 <= logN && logN <= 30
+//@   ensures#set r.workFactor == logN && r.password == old(r.password)                                                               [C10]
+//@   modifies r.workFactor
+
+//@ func (*ScryptIdentity).SetMaxWorkFactor(i, logN)
+//@   requires i != nil && 1 <= logN && logN <= 30
+//@   ensures#set i.maxWorkFactor == logN && i.password == old(i.password)                                                            [C10 C14]
+//@   modifies i.maxWorkFactor
+
 //@ func (*ScryptRecipient).Wrap(r, fileKey) (stanzas, err)
 //@   requires 1 <= r.workFactor && r.workFactor <= 30
 //@   call rand.Read#1 requires len(arg0) == 16                                                                                     [C06]
